@@ -238,6 +238,7 @@ def r13_bool_bitor(src):
         if t.kind == "ident" and t.text in ("match", "if") :
             j = i + 1
             ops = []
+            xors = []
             ok = True
             while j < len(st) and st[j].text != "{":
                 x = st[j]
@@ -245,6 +246,10 @@ def r13_bool_bitor(src):
                     pass
                 elif x.text == "|":
                     ops.append(x)
+                elif x.text == "^":
+                    # `^` (bool xor) binds tighter than `|` and than `||`: the grouping a | (b ^ c) is kept by a || (b ^ c);
+                    # it is written as the `!=` it is on bools (Verus has no `^` on bool either)
+                    xors.append(x)
                 else:
                     ok = False
                     break
@@ -252,6 +257,8 @@ def r13_bool_bitor(src):
             if ok and ops:
                 for x in ops:
                     edits.append((x.start, x.end, "||"))
+                for x in xors:
+                    edits.append((x.start, x.end, "!="))
     return _rebuild(src, edits), len(edits)
 
 
